@@ -103,6 +103,41 @@ def run_shards(binary, cid, cfg, tier, seed, env, work, extra_env=None, run_filt
     return [(i, p.returncode) for i, p, _ in procs], timed_out
 
 
+def run_fuzz(cid, cfg, seed, env, work):
+    """native go fuzzing (thorough only): coverage guided, all cores, cannot be seeded; a crasher is a violation"""
+    import re
+    outs, execs = [], {}
+    fz = cfg["fuzz"]
+    pkgdir = os.path.join(ROOT, "checks", cfg["pkg"])
+    for target in fz["targets"]:
+        e = dict(env)
+        e.update({"VERIF_ROOT": ROOT, "VERIF_ID": cid, "VERIF_TIER": "thorough", "VERIF_SEED": str(seed), "VERIF_SHARD": "0", "VERIF_SHARDS": "1"})
+        cmd = ["go", "test", "-tags", "verif", "-vet=off", "-run", "^$", "-fuzz", "^%s$" % target, "-fuzztime", "%ds" % fz["seconds"],
+               "-test.fuzzcachedir", os.path.join(work, "fuzzcache"), "./checks/" + cfg["pkg"]]
+        if REPO != "/repo":
+            cmd[2:2] = ["-modfile", os.path.join(ROOT, ".build", "go.alt.mod")]
+        try:
+            p = subprocess.run(cmd, cwd=ROOT, env=e, stdout=subprocess.PIPE, stderr=subprocess.STDOUT, text=True, timeout=fz["seconds"] * 3 + 300)
+            out = p.stdout
+        except subprocess.TimeoutExpired as ex:
+            out = (ex.stdout or "") if isinstance(ex.stdout, str) else ""
+            log("native fuzz target %s timed out" % target)
+        outs.append(out)
+        n = 0
+        for m in re.finditer(r"execs: (\d+)", out):
+            n = max(n, int(m.group(1)))
+        execs[target] = n
+        log("native fuzz %s: %d execs" % (target, n))
+    # crashers written by go into testdata/fuzz are copied next to the replays and removed (they would be replayed by every later run)
+    td = os.path.join(pkgdir, "testdata", "fuzz")
+    if os.path.isdir(td):
+        dst = os.path.join(ROOT, "replays", cid, "go-fuzz-crashers")
+        shutil.rmtree(dst, ignore_errors=True)
+        shutil.copytree(td, dst)
+        shutil.rmtree(os.path.join(pkgdir, "testdata"), ignore_errors=True)
+    return outs, execs
+
+
 def main():
     if len(sys.argv) < 3:
         print(__doc__)
@@ -152,6 +187,9 @@ def main():
     if not binary:
         finish(2, cid)
     res, timed_out = run_shards(binary, cid, cfg, tier, seed, env, work)
+    fuzz_out, fuzz_execs = [], {}
+    if tier == "thorough" and cfg.get("fuzz") and not timed_out:
+        fuzz_out, fuzz_execs = run_fuzz(cid, cfg, seed, env, work)
     wall = time.time() - t0
 
     # collect
@@ -225,11 +263,17 @@ def main():
                     b = open(hf, "rb").read()
                     hs = hashes.setdefault(c["name"], set())
                     hs.update(struct.unpack("<%dQ" % (len(b) // 8), b))
+    for out in fuzz_out:
+        for line in out.splitlines():
+            if "VIOLATION-FILE " in line:
+                p = line.split("VIOLATION-FILE ", 1)[1].strip()
+                if p not in violations:
+                    violations.append(p)
     for name, m in merged.items():
         if m["completed"] < m["requested"] and not violations:
             infra.append("check %s executed %d of %d requested cases" % (name, m["completed"], m["requested"]))
 
-    evaluations = sum(m["evaluations"] for m in merged.values())
+    evaluations = sum(m["evaluations"] for m in merged.values()) + sum(fuzz_execs.values())
     distinct = sum(len(hashes.get(n, ())) + m["enum_distinct"] for n, m in merged.items())
     samples = []
     for n, m in merged.items():
@@ -250,6 +294,7 @@ def main():
             "per_check": per_check,
             "known_findings_observed": known,
             "shards": cfg["shards"][tier],
+            "native_fuzz_execs": fuzz_execs,
         },
         "assumptions": cfg.get("assumptions", []) + notes,
         "wall_s": round(wall, 2),
